@@ -2,7 +2,7 @@
 import json
 import random
 
-from harness import b1, k2, tlc, engine
+from harness import b1, dagscripts, k2, tlc, engine
 
 LEVEL = 'model_checking'
 
@@ -38,7 +38,7 @@ def observe(unit):
     from vtlengine.AST.DAG import DAGAnalyzer
     from harness import values
     script = unit['script']
-    text = '\n'.join(stmt_text(s) for s in script)
+    text = '\n'.join(s.get('text') or stmt_text(s) for s in script)
     inputs = sorted({r for s in script for r in s['reads']} - {s['name'] for s in script})
     env = {n: input_ds(int(n.split('_')[1])) for n in inputs}
     ds, dps, _ = k2.build_inputs(env)
@@ -108,6 +108,17 @@ def main(chk):
     chk.notes['model'] = {'scripts_enumerated': len(scripts), 'states': r.states}
     sample = rnd.sample(scripts, min(len(scripts), 600 if quick else 6000))
     units = [{'script': s['script'], 'rop': s['rop']} for s in sample]
+    # scripts whose dependencies run through clause bodies (scalars used in calc / filter of several statements), in several textual orders
+    fam = dagscripts.generate(rnd, 40 if quick else 400)
+    famterms = {}
+    for sc in fam:
+        stm = [{'name': x['name'], 'reads': x['reads'], 'pers': x['pers'], 'text': x['text']} for x in sc['stmts']]
+        for rep in range(2):
+            order = list(stm)
+            if rep:
+                rnd.shuffle(order)
+            famterms[len(units)] = sc['terms']
+            units.append({'script': order, 'rop': rnd.random() < 0.5})
     obs = k2.pmap('props.c13:observe', units)
     tunits, vunits, vobs = [], [], []
     for i, (u, o) in enumerate(zip(units, obs)):
@@ -121,7 +132,13 @@ def main(chk):
         # results are computed from the full script: inline every returned result down to the inputs
         env = {n: input_ds(int(n.split('_')[1])) for n in o['inputs']}
         for name, res in o['results'].items():
-            vunits.append({'id': 't%d.%s' % (i, name), 'env': env, 'term': inline_term(u['script'], name), 'cc': False, 'text': o['text']})
+            if i in famterms:
+                if name not in famterms[i]:
+                    continue
+                term = famterms[i][name]
+            else:
+                term = inline_term(u['script'], name)
+            vunits.append({'id': 't%d.%s' % (i, name), 'env': env, 'term': term, 'cc': False, 'text': o['text']})
             vobs.append(dict(res, text=o['text'] + ' -- ' + name))
     verdicts = validate_traces(chk, tunits, 'gen')
     distinct = set()
@@ -130,7 +147,7 @@ def main(chk):
         chk.add('traces_validated_against_impl')
         distinct.add(json.dumps([t['script'], t['rop']], sort_keys=True))
         if not v['ok']:
-            chk.violation('%s | %s' % (v['why'].split(':')[0], ' '.join(stmt_text(s) for s in t['script'])),
+            chk.violation('%s | %s' % (v['why'].split(':')[0], ' '.join(stmt_text(s) for s in t['script']) if not any(x.get('scalarfam') for x in t['script']) else 'clause-scalar script'),
                           '%s (event %s)' % (v['why'], v.get('at')), t)
         else:
             chk.sample({'script': [stmt_text(s) for s in t['script']], 'rop': t['rop'], 'events': ['%s %s' % (e['ev'], e['name']) for e in t['events']]})
